@@ -38,10 +38,15 @@ def root(o):
     return o.__dict__.get('origin', o)
 
 
-def abstract_result(I, like, suffix):
+def abstract_result(I, like, suffix, appends_line=True):
+    """result of a container operation on `like`: the real operations keep the container's own instruction text and
+    (except for the source of a transfer) append a line to it — the text carries the provenance of `like`'s text"""
     o = I.new_obj('Container', fresh_=True, tag=(like.tag or '?') + suffix)
+    text = like.fields['instructions']
+    if appends_line:
+        text = mkstr([text, '\n', SegStr([OpaqueHole('line', prov_of(text))])])
     o.fields.update(name=like.fields['name'], contents=SymMap(fresh_=True), volume=fresh('vol', RS),
-                    max_volume=like.fields['max_volume'], instructions=SegStr([OpaqueHole('instructions')]),
+                    max_volume=like.fields['max_volume'], instructions=text,
                     experimental_conditions={})
     o.__dict__['produced'] = True
     return o
@@ -58,7 +63,7 @@ def ev_transfer(I, args, kwargs, node):
         raise Raised('ValueError', getattr(node, 'lineno', None), 'self-transfer')
     if I.__dict__.get('event_failures', True) and I.choose(2, 'container operation refused?') == 1:
         raise Raised('ValueError', getattr(node, 'lineno', None), 'refused by the container operation')
-    s2, t2 = abstract_result(I, source, "'"), abstract_result(I, dest, "'")
+    s2, t2 = abstract_result(I, source, "'", appends_line=False), abstract_result(I, dest, "'")
     I.__dict__.setdefault('events', []).append(Event('transfer', (source, dest), (s2, t2), (quantity,),
                                                      getattr(node, 'lineno', None)))
     return (s2, t2)
@@ -322,7 +327,7 @@ def run_transfer(pid, mode, ga, gb=None):
 
 SERVES = {'reject-self': ['C01', 'C07'], 'dispatch': ['C07'], 'pairing': ['C07'], 'linear': ['C01', 'C02', 'C07'], 'locality': ['C01', 'C07'],
           'same-args': ['C07', 'C02'], 'frame': ['C04'], 'result-kinds': ['C07', 'C04'], 'reject-shapes': ['C07'],
-          'per-well': ['C07', 'C17'], 'count': ['C02']}
+          'per-well': ['C07', 'C17'], 'count': ['C02'], 'instructions-home': ['C07', 'C19']}
 
 
 def serves(name, pid):
@@ -406,6 +411,7 @@ def judge_transfer(I, out, mode, info, q):
     I.oblige('result-kinds[new-plates]', bool(fresh_ok), 'property', note='returned plates must be new objects')
     probs = linearity(events, finals, originals)
     I.oblige('linear', len(probs) == 0, 'property', note='; '.join(probs[:4]))
+    oblige_text_home(I, finals, originals)
     # ---- locality: non-addressed wells unchanged in place
     touched = set()
     if src:
@@ -452,6 +458,20 @@ def judge_transfer(I, out, mode, info, q):
     I.oblige('count', len(got) == len(want), 'property', note=f"{len(got)} transfers for {len(want)} paired wells")
     I.oblige('same-args', all(len(e.operands) == 1 and e.operands[0] is q for e in events), 'property',
              note='every per-well transfer must carry the requested quantity')
+
+
+def oblige_text_home(I, finals, originals):
+    """every container keeps its OWN preparation text (plus the lines of what happened to it): the provenance of the
+    final instructions of a well is the provenance of the instructions it had before"""
+    home = dict(originals)
+    alien = []
+    for lab, w in finals:
+        if isinstance(w, Obj) and lab in home and isinstance(home[lab], Obj):
+            mine, got_ = prov_of(home[lab].fields.get('instructions')), prov_of(w.fields.get('instructions'))
+            if mine and not (got_ and got_ <= mine):
+                alien.append(f"{lab}: text derived from {sorted(got_) or 'nothing'}")
+    I.oblige('instructions-home', len(alien) == 0, 'property',
+             note='instructions of a well were replaced by text of another container: ' + '; '.join(alien[:4]))
 
 
 def transfer_replay(mode, ga, gb, clause):
@@ -503,6 +523,7 @@ def run_unary(pid, op, g, via):
         finals = [(f"P1[{r},{c}]", wl) for r, row in enumerate(final_cells(R)) for c, wl in enumerate(row)]
         probs = linearity(events, finals, originals)
         I.oblige('linear', len(probs) == 0, 'property', note='; '.join(probs[:4]))
+        oblige_text_home(I, finals, originals)
         bad = [f"P1[{r},{c}]" for r, row in enumerate(final_cells(R)) for c, wl in enumerate(row)
                if (r, c) not in cs and not state_unchanged(wl, P1.__dict__['cells0'][r][c])]
         I.oblige('locality', len(bad) == 0, 'property', note=f"wells outside the slice changed: {bad[:5]}")
